@@ -37,5 +37,8 @@ for cid in sorted(by):
                                                     format(max(r["states"] for r in rs), ","), format(max(r["traces"] for r in rs), ",")))
 out += ["", "The repository's own suite with the `verif` tag off (`go test -vet=off -count=1 ./...` in `/repo`, go 1.23.5): every package `ok` except",
         "`middleware/proxy`, whose four tests that resolve `google.com` fail exactly as on the pinned tree (no network in the sandbox).", ""]
+_extra = os.path.join(os.path.dirname(os.path.abspath(__file__)), "runlog_extra.md")
+if os.path.exists(_extra):
+    out += open(_extra).read().splitlines()
 open(os.path.join(os.path.dirname(os.path.abspath(__file__)), "runlog.md"), "w").write("\n".join(out) + "\n")
 print("\n".join(out[:12]))
